@@ -91,6 +91,10 @@ TABLE.update({
     "c13_projection_folds_copy_decider.diff": ("contracts.c13", "_try_fold_projection_into_source", "0 variables"),
     "c13_projection_folds_named_value.diff": ("contracts.c13", "_try_fold_projection_into_source", "1 variables"),
     "../seeded/C13-2/patch.diff": ("contracts.c13", "_try_fold_projection_into_source", "0 variables"),
+    "c11_int_variable_not_constant.diff": ("contracts.c16b", "lower_decl_stmt", "fresh producer"),
+    "c20_declared_constant_not_marked.diff": ("contracts.c16b", "lower_decl_stmt", "fresh producer"),
+    "c16_int_signal_decl_wrong_value.diff": ("contracts.c16b", "lower_decl_stmt", "fresh producer"),
+    "../seeded/C02-2/patch.diff": ("contracts.c16b", "lower_decl_stmt", "fresh producer"),
     "c08_preserved_shares_network_zero.diff": ("contracts.c12", "_restore_preserved_connection", None),
     "c08_preserved_routing_failure_ignored.diff": ("contracts.c12", "_restore_preserved_connection", None),
     "c08_preserved_span_doubled.diff": ("contracts.c12", "_restore_preserved_connection", None),
